@@ -402,7 +402,7 @@ def check_property(prop, spec, tier, seed, replay=None):
         return finish(prop, spec, tier, seed, build_violations, [], inconclusive, notes, build_log, t_start, {})
 
     # ---- run
-    default_timeout = 1500 if tier == "quick" else 5400
+    default_timeout = 900 if tier == "quick" else 5400
     jobs = []
     for r in runs:
         trace = r.variant not in ("debug", "release", "fhex-debug", "fhex-release")
